@@ -562,6 +562,26 @@ theorem subgraph_names_refine (types : List Ty) (cb : Nat) (outs : List Nat) (w 
   simp only [subgraphTail, hl, hv, hr.1, hr.2.1, subgraphCall, CbBehaviour.callable, CbBehaviour.result, freshIds]
   simp
 
+open SubgraphNames SubgraphNamesLemmas in
+/-- **Exactly what the name scheme has to satisfy** (the converse of the two statements above). For *any* name
+    function in place of `f"{prefix}{i}"`: the dict comprehension keeps one entry per element for every list —
+    no argument, no result is lost — **iff** the name function is injective; and then it is positional
+    (`enumInto … = named …`). `pyKey pre` is injective for every prefix (`pyKey_inj`: decimal rendering is
+    injective, the common prefix cancels), which is how the two theorems above follow. -/
+theorem names_positional_iff_injective (key : Nat → String) :
+    (∀ xs : List Nat, (enumInto key xs 0 []).length = xs.length) ↔ (∀ a b, key a = key b → a = b) := by
+  constructor
+  · intro h a b hab
+    rcases Nat.lt_trichotomy a b with hlt | heq | hgt
+    · have := enumInto_collision_lt key (List.range (b + 1)) 0 a b [] hlt (by simp) (by simpa using hab)
+      rw [h] at this; simp at this
+    · exact heq
+    · have := enumInto_collision_lt key (List.range (a + 1)) 0 b a [] hgt (by simp) (by simpa using hab.symm)
+      rw [h] at this; simp at this
+  · intro hinj xs
+    rw [enumInto_eq key hinj xs 0 [] (by intro p hp; cases hp)]
+    simp [named_length]
+
 open SubgraphNames in
 /-- Why the dict order matters (the `enum_arguments`-sorted-by-name change of a held-out round): listing the
     entries in *name* order is positional up to 10 entries and wrong from the 11th on (`in10 < in2`). -/
